@@ -664,6 +664,7 @@ bool type_check(ASTNode *program, Environment *env);
 bool type_check_module(ASTNode *program, Environment *env);  /* Type check without requiring main */
 void typecheck_set_current_file(const char *path);
 Type check_expression(ASTNode *expr, Environment *env);
+Type nested_array_element_type(ASTNode *array_expr, Environment *env);
 
 /* Shadow-Test Runner */
 bool run_shadow_tests(ASTNode *program, Environment *env, bool verbose);
